@@ -28,16 +28,19 @@ def remapErr (s : Status) (p : P α) : P α := fun d pos =>
   | .error (.st _) => .error (.st s)
   | r => r
 
+/-- a presence flag followed, when set, by one unpacked object of type `vt`.  `strict`: the flag
+    must be exactly 0 or 1 (table-level entries, tablemetadata.c:158-163, 177-182); the
+    column-level flags accept any non-zero value -/
+def readOptObj (c : Cfg) (vt : Nat) (strict : Bool) : P (Option Obj) := do
+  let v ← readInt8
+  if v ≠ 0 then
+    if strict = true ∧ v ≠ 1 then P.fail .arrayLen1 else do let o ← readObj c vt; P.pure (some o)
+  else P.pure none
+
 /-- `sbdf_read_metadata_values` -/
 def readMdValues (c : Cfg) (vt : Nat) : P (Option Obj × Option Obj) := do
-  let v ← readInt8
-  let value ← (if v ≠ 0 then
-      if v ≠ 1 then P.fail .arrayLen1 else do let o ← readObj c vt; P.pure (some o)
-    else P.pure none)
-  let v ← readInt8
-  let dflt ← (if v ≠ 0 then
-      if v ≠ 1 then P.fail .arrayLen1 else do let o ← readObj c vt; P.pure (some o)
-    else P.pure none)
+  let value ← readOptObj c vt true
+  let dflt ← readOptObj c vt true
   P.pure (value, dflt)
 
 def readTableEntry (c : Cfg) : P MdEntry := do
@@ -56,21 +59,20 @@ structure NameRow where
 def readNameRow (c : Cfg) : P NameRow := do
   let name ← readString c
   let vt ← readInt8
-  let v ← readInt8
-  let dflt ← (if v ≠ 0 then do let o ← readObj c vt; P.pure (some o) else P.pure none)
+  let dflt ← readOptObj c vt false
   P.pure ⟨name, vt, dflt⟩
 
 /-- one column: a presence flag (+ value) per name row, each present one `sbdf_md_add`ed -/
 def readColumn (c : Cfg) : List NameRow → Md → P Md
   | [], m => P.pure m
   | r :: rs, m => do
-    let v ← readInt8
-    if v ≠ 0 then do
-      let value ← readObj c r.vt
+    let o ← readOptObj c r.vt false
+    match o with
+    | some value =>
       match Md.add r.name value r.dflt m with
       | .error e => P.fail e
       | .ok m' => readColumn c rs m'
-    else readColumn c rs m
+    | none => readColumn c rs m
 
 /-- `sbdf_tm_read` -/
 def readTM (c : Cfg) : P TM := do
